@@ -971,10 +971,14 @@ pub fn p_limits(thorough: bool) -> ProgSpace {
     let g2 = g2_gen();
     // (opcode, arity, first-arg override)
     let ops: Vec<(u8, usize, Option<Vec<u8>>)> = vec![(18, 2, None), (18, 3, None), (19, 2, None), (20, 2, None), (61, 2, None), (60, 3, None), (50, 2, Some(g1)), (54, 2, Some(g2)), (16, 2, None), (24, 2, None), (22, 2, None)];
-    let k = consts.len() as u64;
+    // three-operand operators draw from a reduced constant list in the quick tier (cubic blow-up)
+    let k_full = consts.len() as u64;
+    let reduced: Vec<usize> = if thorough { (0..consts.len()).collect() } else { (0..consts.len()).filter(|i| *i < 3 || consts[*i].len() == 257 || consts[*i].len() == 1025 || (consts[*i].len() == 256 && consts[*i][0] == 0x5a)).collect() };
+    let k_red = reduced.len() as u64;
     let mut offsets = vec![0u64];
     for (_, ar, ov) in &ops {
         let free = if ov.is_some() { ar - 1 } else { *ar };
+        let k = if free >= 3 || ov.is_some() { k_red } else { k_full };
         offsets.push(offsets.last().unwrap() + k.pow(free as u32));
     }
     let total = *offsets.last().unwrap();
@@ -992,8 +996,12 @@ pub fn p_limits(thorough: bool) -> ProgSpace {
             if let Some(first) = ov {
                 args.push(quote(atom(first)));
             }
+            let free = if ov.is_some() { ar - 1 } else { *ar };
+            let use_red = free >= 3 || ov.is_some();
+            let k = if use_red { k_red } else { k_full };
             while args.len() < *ar {
-                let mut c = consts[(r % k) as usize].clone();
+                let ci = (r % k) as usize;
+                let mut c = if use_red { consts[reduced[ci]].clone() } else { consts[ci].clone() };
                 r /= k;
                 // modpow exponents are kept <= 257 bytes (run time), shifts small
                 if *op == 60 && args.len() == 1 && c.len() > 257 {
